@@ -825,6 +825,28 @@ func (e *env) preauth(op Op, check bool) error {
 		case <-time.After(patience):
 			rep.Count("preauth:writer_alive_after_20s", 1)
 		}
+	case "burst":
+		// no CONNECT at all: a PINGREQ and, in the same write, the packets (they are in the broker's hands before it can
+		// close the connection for the first one)
+		var raw []byte
+		for _, p := range append([]*mw.Packet{mw.Pingreq()}, pkts...) {
+			p.Version = ver
+			b, err := mw.Encode(p)
+			if err != nil {
+				k.done()
+				return machinery{"encode: " + err.Error()}
+			}
+			raw = append(raw, b...)
+		}
+		if err := k.c.SendRaw(raw); err != nil {
+			k.done()
+			return machinery{"send: " + err.Error()}
+		}
+		select {
+		case <-k.w.wexit:
+		case <-time.After(patience):
+			rep.Count("preauth:writer_alive_after_20s", 1)
+		}
 	case "afterfail":
 		if err := k.c.Send(bad); err != nil {
 			k.done()
